@@ -43,6 +43,7 @@ public:
 #include "stir/IO/read_data.h"
 #include "stir/IO/write_data.h"
 #include <sstream>
+#include <cstring>
 #include <sys/types.h>
 #include <sys/wait.h>
 #include <unistd.h>
@@ -252,6 +253,13 @@ inline std::vector<Forced> sweep_plan(long q) {
   for (int pos = 0; pos <= 3; ++pos) f.push_back({ "NSapybM", pos, code(), 0, 0 });
   for (int op = 0; op < 2; ++op) f.push_back({ "NVOpM", 1, code(), (int)((q + op) % 4), 0 });
   for (int op = 0; op < 2; ++op) f.push_back({ "NBOpM", 1, code(), (int)((q + op + 2) % 4), 0 });
+  // contiguity and the flat-path operations: a fresh array owning one block, then an inner row (reached through
+  // operator[]) is resized to the same length shifted by one / shrunk / grown, each followed by flat-path calls
+  f.push_back({ "NConstruct", 0, 0, 0, 0 });
+  f.push_back({ "NIotaAll", 0, 0, 1, 0 });
+  f.push_back({ "NRowResize", 1, 0, 0, 0 }); f.push_back({ "NCopyTo", 0, 0, 0, 0 }); f.push_back({ "NFillFrom", 0, 0, 50, 0 });
+  f.push_back({ "NRowResize", 2, 0, 0, 0 }); f.push_back({ "NFullPtr", 0, 0, 0, 0 }); f.push_back({ "NReadData", 0, 0, 70, 0 });
+  f.push_back({ "NRowResize", 3, 0, 0, 0 }); f.push_back({ "NCopyTo", 0, 0, 0, 0 }); f.push_back({ "NWriteData", 0, 0, 0, 0 }); f.push_back({ "NFullPtrW", 0, 0, 90, 0 });
   return f;
 }
 
